@@ -919,26 +919,28 @@ func unop(fr *frame, instr *ssa.UnOp, x value) value {
 // unless instr.CommaOk, in which case it always returns a "value,ok" tuple.
 func typeAssert(i *interpreter, instr *ssa.TypeAssert, itf iface) value {
 	var v value
-	err := ""
+	ok := false
 	if itf.t == nil {
-		err = fmt.Sprintf("interface conversion: interface is nil, not %s", instr.AssertedType)
-
-	} else if idst, ok := instr.AssertedType.Underlying().(*types.Interface); ok {
+		// fails
+	} else if idst, isIface := instr.AssertedType.Underlying().(*types.Interface); isIface {
 		v = itf
-		err = checkInterface(i, idst, itf)
-
+		ok = checkInterface(i, idst, itf) == ""
 	} else if types.Identical(itf.t, instr.AssertedType) {
 		v = itf.v // extract value
-
-	} else {
-		err = fmt.Sprintf("interface conversion: interface is %s, not %s", itf.t, instr.AssertedType)
+		ok = true
 	}
-	// Note: if instr.Underlying==true ever becomes reachable from interp check that
-	// types.Identical(itf.t.Underlying(), instr.AssertedType)
-
-	if err != "" {
+	if !ok {
 		if !instr.CommaOk {
-			panic(err)
+			// the message is only built on the failing path
+			switch {
+			case itf.t == nil:
+				panic(fmt.Sprintf("interface conversion: interface is nil, not %s", instr.AssertedType))
+			default:
+				if idst, isIface := instr.AssertedType.Underlying().(*types.Interface); isIface {
+					panic(checkInterface(i, idst, itf))
+				}
+				panic(fmt.Sprintf("interface conversion: interface is %s, not %s", itf.t, instr.AssertedType))
+			}
 		}
 		return tuple{zero(instr.AssertedType), false}
 	}
